@@ -96,7 +96,7 @@ OpResult run_op(const OpSpec &op) {
   u8_t *rbuf = rbuf_v.data();
   simsched::session_begin(op.sc);
   {
-    Settings st(op.kind == OP_ENC ? (char)op.cmode : (char)-1, op.kind == OP_ENC ? (char)op.hmode : (char)-1, true);
+    Settings st(op.kind == OP_ENC ? (char)op.cmode : (char)-1, op.kind == OP_ENC ? (char)op.hmode : (char)-1, !op.echo);
     runcrypt rc(fin, fout, key, st, (u8_t)op.T);
     if (op.kind == OP_ENC) r.ret = rc.execute_encrypt(op.fsize, rbuf);
     else if (op.kind == OP_DEC) r.ret = rc.execute_decrypt(op.fsize);
